@@ -1,6 +1,7 @@
 import PtnModel.Driver.Kernels
 import PtnModel.Model.MPSSvd
 import PtnModel.Model.Operation
+import PtnModel.Model.MPOSparse
 open Lean
 namespace Ptn.Drv.MPSDrv
 
@@ -82,7 +83,12 @@ def handle : Handler := fun op j =>
             let a ← getArr x
             pure ((← getList a[0]! getNat), (← getList a[1]! getNat)))).toOption).getD []
         | none => []
-      pure <| jExcept (o.asMatrix.map fun M => [("mat", jMat M), ("elems", jList (digits.map fun p => o.elem p.1 p.2) jGRat)])
+      -- optional field "sparse": model of `as_matrix(sparse_format=True)` instead of the dense path
+      let sparse : Bool := match fOpt j "sparse" with
+        | some b => (getBool b).toOption.getD false
+        | none => false
+      let r := if sparse then o.asMatrixSparse else o.asMatrix
+      pure <| jExcept (r.map fun M => [("mat", jMat M), ("elems", jList (digits.map fun p => o.elem p.1 p.2) jGRat)])
   | "mps.add" => some do
       let a ← parseMPS (← fld j "a"); let b ← parseMPS (← fld j "b")
       let alpha ← parseGRat (← fld j "alpha")
